@@ -2,10 +2,12 @@ package c20
 
 import (
 	"fmt"
+	"runtime"
 
 	"github.com/ohler55/ojg/asm"
 	"verif/internal/core"
 	"verif/internal/gens"
+	"verif/internal/ref/asmref"
 )
 
 // eachBodies are iteration bodies that only read and write the per-item local
@@ -109,4 +111,114 @@ func replayEach(c *core.Ctx, cs eachCase) {
 	if fmt.Sprint(whole) != fmt.Sprint(parts) {
 		c.Fail("replay|each", cs, 1, fmt.Sprint(parts), fmt.Sprint(whole))
 	}
+}
+
+// ---------------------------------------------------------------- local context
+
+// localBodies are calls evaluated with @ bound to a value that is not the
+// root (what each and asm do for their bodies): the documented functions must
+// compute the same thing there as at the top of a plan, with every nested call
+// - cond clauses included - reading the same @.
+var localBodies = append(append([]string{}, eachBodies...),
+	`["set","@.asm",["sum","@.src","$.src.a"]]`,
+	`["cond",[["get","@.flag"],["set","@.asm",["get","@.src"]]],[true,["set","@.asm",["get","$.src.a"]]]]`,
+	`["cond",[["lt","@.src","$.src.a"],["sum","@.src",1]],[true,["get","@.k"]]]`,
+	`["cond",[["not",["eq","@.src",2]],["list","@.src","@.k"]]]`,
+	`["and",["lt","@.src",3],["gt","@.src",["get","$.src.zero"]]]`,
+)
+
+type localCase struct {
+	Leg   string `json:"leg"`
+	Plan  string `json:"plan"`
+	Local any    `json:"local"`
+}
+
+func runLocal(plan string, local map[string]any, root map[string]any) (val any, raised bool, pv any) {
+	defer func() {
+		if r := recover(); r != nil {
+			if _, isRT := r.(runtime.Error); isRT {
+				pv = r
+			} else {
+				raised = true
+			}
+		}
+	}()
+	v, _ := parseJSON(plan)
+	p := asm.NewPlan(v.([]any))
+	val = snapshot(p.Eval(root, local, p.Args...))
+	return
+}
+
+func localRoot() map[string]any {
+	return map[string]any{"src": map[string]any{"a": int64(2), "zero": int64(0), "list": []any{int64(5)}}, "k": "root-k", "flag": false}
+}
+
+func localLeg(c *core.Ctx, fns map[string]bool) {
+	var locals []map[string]any
+	for _, item := range []any{int64(1), int64(2), int64(3)} {
+		locals = append(locals, map[string]any{"src": item}, map[string]any{"src": item, "k": "local-k", "flag": true})
+	}
+	for _, body := range localBodies {
+		for _, local := range locals {
+			judgeLocal(c, fns, body, local, false)
+		}
+	}
+}
+
+func judgeLocal(c *core.Ctx, fns map[string]bool, body string, local map[string]any, replaying bool) {
+	c.Eval()
+	c.Add("local_context_cases", 1)
+	impLocal, _ := clone(local).(map[string]any)
+	impRoot := localRoot()
+	val, raised, pv := runLocal(body, impLocal, impRoot)
+	if pv != nil {
+		return // totality is judged by the main enumeration
+	}
+	refLocal, _ := clone(local).(map[string]any)
+	m := &asmref.M{Fns: fns, Root: localRoot()}
+	arr, _ := parseJSON(body)
+	o := m.RunLocal(arr.([]any), refLocal)
+	if o.Unknown || m.RootUnknown {
+		c.Add("local_context_cases_without_reference_opinion", 1)
+		return
+	}
+	c.Nontrivial()
+	fail := func(exp, obs string) {
+		c.Fail(core.Sig("local-context", "fn="+fmt.Sprint(arr.([]any)[0]), "wrong-result"), localCase{Leg: "local", Plan: body, Local: local}, len(body), exp, obs)
+	}
+	if raised {
+		if !o.CanRaise {
+			fail(fmt.Sprintf("one of %v", o.Vals), "raised an error")
+		}
+		return
+	}
+	okVal := false
+	for _, w := range o.Vals {
+		if eqLoose(val, w, 0) {
+			okVal = true
+		}
+	}
+	if !okVal {
+		fail(fmt.Sprintf("one of %v (raise allowed: %v)", o.Vals, o.CanRaise), fmt.Sprintf("%v", val))
+		return
+	}
+	if !eqLoose(snapshot(impLocal), snapshot(refLocal), 0) {
+		fail("@ afterwards: "+fmt.Sprint(refLocal), "@ afterwards: "+fmt.Sprint(impLocal))
+		return
+	}
+	if !eqLoose(snapshot(impRoot), snapshot(m.Root), 0) {
+		fail("$ afterwards: "+fmt.Sprint(m.Root), "$ afterwards: "+fmt.Sprint(impRoot))
+	}
+}
+
+// normLocal turns the float64 numbers of a decoded case back into int64.
+func normLocal(m map[string]any) map[string]any {
+	out := map[string]any{}
+	for k, v := range m {
+		if f, ok := v.(float64); ok && f == float64(int64(f)) {
+			v = int64(f)
+		}
+		out[k] = v
+	}
+	return out
 }
